@@ -219,6 +219,110 @@ class _Quiet:
         root.handlers, root.level = self._saved[0], self._saved[1]
 
 
+def reduced_form_problems(t):
+    """Model-side characterisation of 'a form to which no rewrite rule applies', stated from the documented rules
+    (independent of the implementation's own stepper): returns a list of (sub-term, reason)."""
+    import math as _math
+    out = []
+
+    def is_const(u, *vals):
+        return u[0] == "const" and (not vals or any(u[1] == v for v in vals))
+
+    def visit(u):
+        tag = u[0]
+        ks = M.children(u)
+        if tag in ("minus", "div"):
+            out.append((u, f"{M.CLASS_OF[tag]} is always rewritten to a sum / product"))
+        elif tag == "add":
+            if any(k[0] == "add" for k in ks):
+                out.append((u, "a sum directly inside a sum is flattened"))
+            if any(is_const(k, 0) for k in ks):
+                out.append((u, "zero terms are eliminated"))
+            if sum(1 for k in ks if k[0] == "const") > 1:
+                out.append((u, "constants of a sum are consolidated"))
+            bases = [M._num_key(M.base_value(k[2])) for k in ks if k[0] == "log"]
+            if len(bases) != len(set(bases)):
+                out.append((u, "logarithms of one base are consolidated"))
+        elif tag == "mul":
+            if any(k[0] == "mul" for k in ks):
+                out.append((u, "a product directly inside a product is flattened"))
+            if any(is_const(k, 0, 1) for k in ks):
+                out.append((u, "factors 0 and 1 are eliminated"))
+            if any(k[0] == "neg" for k in ks):
+                out.append((u, "negated factors are pulled out"))
+            if sum(1 for k in ks if k[0] == "const") > 1:
+                out.append((u, "constants of a product are consolidated"))
+            for kind, what in (("npow", "powers of one n"), ("root", "roots of one n")):
+                ns = [int(k[2]) for k in ks if k[0] == kind]
+                if len(ns) != len(set(ns)):
+                    out.append((u, f"{what} are consolidated"))
+            bases = [M._num_key(M.base_value(k[2])) for k in ks if k[0] == "exp"]
+            if len(bases) != len(set(bases)):
+                out.append((u, "exponentials of one base are consolidated"))
+        elif tag == "neg":
+            if ks[0][0] in ("neg", "add"):
+                out.append((u, "Negation of a Negation / of a sum is rewritten"))
+        elif tag == "recip":
+            if ks[0][0] in ("recip", "neg", "mul"):
+                out.append((u, "Reciprocal of a Reciprocal / Negation / product is rewritten"))
+        elif tag == "npow":
+            n = int(u[2])
+            c = ks[0]
+            if n == 1:
+                out.append((u, "NthPower with n = 1 is removed"))
+            if c[0] in ("npow", "neg", "recip", "exp"):
+                out.append((u, f"NthPower of {M.CLASS_OF[c[0]]} is rewritten"))
+            if c[0] == "root" and (_math.gcd(int(c[2]), n) != 1):
+                out.append((u, "NthPower of NthRoot with a common divisor is rewritten"))
+        elif tag == "root":
+            n = int(u[2])
+            c = ks[0]
+            if n == 1:
+                out.append((u, "NthRoot with n = 1 is removed"))
+            if c[0] in ("npow", "root", "recip"):
+                out.append((u, f"NthRoot of {M.CLASS_OF[c[0]]} is rewritten"))
+            if c[0] == "neg" and n % 2 == 1:
+                out.append((u, "odd NthRoot of a Negation is rewritten"))
+        elif tag == "exp":
+            c = ks[0]
+            if c[0] == "neg":
+                out.append((u, "Exponential of a Negation is rewritten"))
+            if c[0] == "log" and M._num_key(M.base_value(c[2])) == M._num_key(M.base_value(u[2])):
+                out.append((u, "Exponential of Logarithm of the same base is removed"))
+        elif tag == "log":
+            c = ks[0]
+            if c[0] == "recip":
+                out.append((u, "Logarithm of a Reciprocal is rewritten"))
+            if c[0] == "exp" and M._num_key(M.base_value(c[2])) == M._num_key(M.base_value(u[2])):
+                out.append((u, "Logarithm of Exponential of the same base is removed"))
+            if c[0] == "npow" and int(c[2]) % 2 == 1:
+                out.append((u, "Logarithm of an odd power is rewritten"))
+        elif tag == "pow":
+            a, b = ks
+            if b[0] == "const":
+                v = b[1]
+                if v in (0, 1, -1) or (float(v).is_integer() and v >= 2):
+                    out.append((u, "Power with this constant exponent is rewritten"))
+            if a[0] == "const" and a[1] > 0:
+                out.append((u, "Power with a positive constant base is rewritten"))
+            if a[0] in ("pow", "recip"):
+                out.append((u, f"Power of {M.CLASS_OF[a[0]]} is rewritten"))
+            if b[0] == "neg":
+                out.append((u, "Power with a negated exponent is rewritten"))
+        elif tag in ("cos", "sin"):
+            if ks[0][0] == "neg":
+                out.append((u, f"{M.CLASS_OF[tag]} of a Negation is rewritten"))
+        if tag not in ("var", "const") and not M.variables(u):
+            r = RS.ref_eval(u, {})
+            if r.status == "ok":
+                out.append((u, "a variable-free sub-expression with a value is folded to a Constant"))
+        for k in ks:
+            visit(k)
+
+    visit(t)
+    return out
+
+
 _RULE_FREE = {}
 
 
@@ -316,6 +420,13 @@ def analyse(label, t0, share, do_cuts, st: Stats, count=True, do_gen2=False):
                     p11.append(("not rule-free", f"sub-expression {M.show(sub)} of the normal form {M.show(final_t)[:200]} still rewrites "
                                                  f"to {ok}", None))
                     break
+            if not p11:
+                rf = reduced_form_problems(final_t)
+                if count:
+                    st.inc("reduced_form_invariant_checks")
+                if rf:
+                    p11.append(("not rule-free", f"the reduced form {M.show(final_t)[:200]} still contains {M.show(rf[0][0])[:160]}: "
+                                                 f"{rf[0][1]}", None))
             if do_gen2 and not p11:
                 g2 = gen2_problems(t0, share)
                 if count:
@@ -476,6 +587,8 @@ def start_items(tier):
         items.append(("PARAM", t, False, M.size(t) <= 4))
     for t in F.near_terms(tier):
         items.append(("NEAR", t, False, True))
+    for t in F.binbin_terms(tier):
+        items.append(("BINBIN", t, False, True))
     for lab, t in F.chain_terms(tier):
         n = M.size(t)
         items.append(("CHAIN:" + lab, t, False, n <= (21 if tier == "thorough" else 9)))
@@ -520,9 +633,10 @@ def _run(pid, tier, seed):
             try:
                 with time_limit(300):
                     work_item(pid, it, st)
-            except (OperationTimeout, MemoryError) as ex:
-                st.violation(term_case(it[0], it[1], it[2], "timeout",
-                                       f"simplification of this start term did not finish ({type(ex).__name__}: {ex})", None))
+            except (OperationTimeout, MemoryError, RecursionError) as ex:
+                st.violation(term_case(it[0], it[1], it[2], "growth",
+                                       f"simplification of this start term did not finish or grew without bound "
+                                       f"({type(ex).__name__}: {str(ex)[:80]})", None))
             except Exception as ex:  # noqa: BLE001
                 from .core import raised_in_library
                 if not raised_in_library(ex):
@@ -532,9 +646,14 @@ def _run(pid, tier, seed):
             st.inc("start_terms")
             st.inc("start_" + it[0].split(":")[0])
             if st.c["start_terms"] % 173 == 1:
-                tr = follow(A.build(it[1], it[2]))
-                st.sample({"family": it[0], "start": M.show(it[1]) if M.size(it[1]) < 30 else f"({M.size(it[1])} nodes)",
-                           "steps": tr.steps, "normal_form": M.show(tr.terms[-1]) if M.size(tr.terms[-1]) < 30 else f"({M.size(tr.terms[-1])} nodes)"})
+                try:
+                    with time_limit(20):
+                        tr = follow(A.build(it[1], it[2]), cap=500)
+                    st.sample({"family": it[0], "start": M.show(it[1]) if M.size(it[1]) < 30 else f"({M.size(it[1])} nodes)",
+                               "steps": tr.steps, "normal_form": M.show(tr.terms[-1]) if M.size(tr.terms[-1]) < 30 else f"({M.size(tr.terms[-1])} nodes)"})
+                except BaseException as ex:  # noqa: BLE001 - a sample for the evidence file must never decide a run
+                    if isinstance(ex, KeyboardInterrupt):
+                        raise
         return st
 
     # large chains are expensive: small chunks keep the pool balanced
